@@ -1125,6 +1125,7 @@ package decimal
 //@   ensures[where]    result_in(result, z)
 //@   ensures[words,C08] wordsok(result) && natnorm(result)
 //@   ensures[value,C06] V(result) == old(V(x))*y + r
+//@   ensures[len]      len(result) <= len(x) + 1
 //@   hint[ret] Vdef(z, 0, m)
 
 //@ func (z dec) divW(x dec, y Word) (q dec, r Word)
@@ -1162,15 +1163,95 @@ package decimal
 // contracts below are ASSUMED by callers and validated by bounded execution against
 // math/big (bounded/c06_test.go).
 
+//@ func karatsubaLen(n, threshold int) int
+//@   requires[pos] n >= 1 && threshold >= 1 && n <= 4611686018427387904
+//@   ensures[range] 1 <= result && result <= n
+//@   loop 1 invariant[range] 1 <= n && 0 <= i && i <= 62 && n*pow2(i) <= old(n)
+
+//@ func getDec(n int) *dec
+//@   requires[len] 0 <= n && n <= 1099511627775
+//@   ensures[fresh] result != nil && fresh(deref(result)) && len(deref(result)) == n && cap(deref(result)) >= n
+//@   status assumed sync.Pool: the returned buffer is exclusively owned until putDec
+
+//@ func putDec(x *dec)
+//@   status assumed sync.Pool
+
+//@ func decKaratsuba(z, x, y dec)
+//@   requires[len]   len(x) == len(y) && len(x) >= 1 && len(z) >= 6*len(x)
+//@   requires[words] wordsok(x) && wordsok(y)
+//@   requires[apart] z.arr != x.arr && z.arr != y.arr
+//@   modifies mem(z[:6*len(x)])
+//@   ensures[words,C06] wordsok(z[:2*len(x)])
+//@   ensures[value,C06] V(z[:2*len(x)]) == V(x)*V(y)
+//@   ensures[operands,C09] samewords(x, old(x)) && samewords(y, old(y))
+//@   status assumed bounded: bounded/c06_test.go (recursive Karatsuba with in-place scratch layout)
+
+// dec.mul: the dispatch (operand swap, one-word factor, schoolbook product below the
+// threshold) and the composition of the product from Karatsuba-sized pieces are verified;
+// only decKaratsuba itself (and the pool) is assumed.  With x = x0 + x1*B^k + ..., y = y0 +
+// y1*B^k: z = x0*y0, then z += x0*y1*B^k, then for every further piece xi of x
+// z += xi*y0*B^i and z += xi*y1*B^(i+k); invariant V(z) == V(x[:i])*V(y).
+//@ define mul_dst(z, x) = x.arr != z.arr || cap(z) == 0 || (samebase(z, x) && cap(z) == cap(x))
 //@ func (z dec) mul(x, y dec) dec
-//@   requires[words]   wordsok(x) && wordsok(y) && natnorm(x) && natnorm(y) && small(x) && small(y)
+//@   requires[words]   wordsok(x) && wordsok(y) && natnorm(x) && natnorm(y) && len(x) <= 100000000 && len(y) <= 100000000
+//@   requires[dst]     mul_dst(z, x) && mul_dst(z, y)
 //@   modifies memcap(z)
 //@   ensures[where]    result_in(result, z)
 //@   ensures[words,C06,C08] wordsok(result) && natnorm(result)
 //@   ensures[value,C01,C06] V(result) == old(V(x))*old(V(y))
 //@   ensures[len]      len(result) <= len(x) + len(y)
 //@   ensures[operands,C09,C18] (!goalias(z, x) ==> samewords(x, old(x))) && (!goalias(z, y) ==> samewords(y, old(y)))
-//@   status assumed bounded: bounded/c06_test.go
+//@   hint[entry] V_bounds(x, 0, len(x))
+//@   hint[entry] V_bounds(y, 0, len(y))
+//@   hint[entry] V_nonneg(x, 0, len(x))
+//@   hint[entry] V_nonneg(y, 0, len(y))
+//@   hint[entry] P_add(len(x), len(y))
+//@   hint[entry] mul_mono(V(x) + 1, P(len(x)), V(y))
+//@   hint[entry] mul_mono(V(y) + 1, P(len(y)), P(len(x)))
+//@   hint[entry] assert(V(x)*V(y) < P(len(x) + len(y)))
+//@   hint[after:clear#1] V_split(z, 0, 2*k, len(z))
+//@   hint[after:clear#1] assert(V(z) == V(x[:k])*V(y[:k]))
+//@   hint[after:mul#2] V_split(y, 0, k, n)
+//@   hint[after:mul#2] V_split(x, 0, k, m)
+//@   hint[after:mul#2] V_nonneg(x, k, m)
+//@   hint[after:mul#2] V_nonneg(x, 0, k)
+//@   hint[after:mul#2] V_nonneg(y, k, n)
+//@   hint[after:mul#2] P_mono(0, k)
+//@   hint[after:mul#2] mul_mono(1, P(k), V(x[k:]))
+//@   hint[after:mul#2] assert(V(x[:k]) <= V(x))
+//@   hint[after:mul#2] mul_mono(V(x[:k]), V(x), V(y))
+//@   hint[after:mul#2] mul_eq(V(y), V(y[:k]) + P(k)*V(y[k:]), V(x[:k]))
+//@   hint[after:mul#2] mul_eq(V(result), V(x[:k])*V(y[k:]), P(k))
+//@   hint[after:mul#2] assert(V(z) + V(result)*P(k) == V(x[:k])*V(y))
+//@   loop 1 invariant[range] k <= i && 1 <= k && k <= n && n <= m && m == len(x) && n == len(y) && len(z) == m + n && n <= 100000000 && m <= 100000000
+//@   loop 1 invariant[words] wordsok(z) && wordsok(x) && wordsok(y) && natnorm(x) && natnorm(y)
+//@   loop 1 invariant[value] V(z) == V(x[:(i <= m ? i : m)])*V(y)
+//@   loop 1 invariant[bufs]  fresh(t) && z.arr != t.arr && z.arr != x.arr && z.arr != y.arr && (z.arr == old(z.arr) && z.off == old(z.off) && cap(z) == old(cap(z)) || fresh(z))
+//@   loop 1 invariant[y0n]   y0.arr == y.arr && y0.off == y.off && len(y0) <= k && natnorm(y0) && V(y0) == V(y[:k])
+//@   loop 1 invariant[opnd]  samewords(x, old(x)) && samewords(y, old(y)) && V(x) == old(V(x)) && V(y) == old(V(y))
+//@   hint[after:mul#3] V_split(x, 0, i, i + (m - i > k ? k : m - i))
+//@   hint[after:mul#3] V_split(x, 0, i + (m - i > k ? k : m - i), m)
+//@   hint[after:mul#3] V_nonneg(x, i + (m - i > k ? k : m - i), m)
+//@   hint[after:mul#3] V_nonneg(x, 0, i + (m - i > k ? k : m - i))
+//@   hint[after:mul#3] V_nonneg(x, i, i + (m - i > k ? k : m - i))
+//@   hint[after:mul#3] V_split(y, 0, k, n)
+//@   hint[after:mul#3] V_nonneg(y, k, n)
+//@   hint[after:mul#3] V_nonneg(y, 0, k)
+//@   hint[after:mul#3] P_mono(0, i + (m - i > k ? k : m - i))
+//@   hint[after:mul#3] P_mono(0, i)
+//@   hint[after:mul#3] P_mono(0, k)
+//@   hint[after:mul#3] P_add(i, k)
+//@   hint[after:mul#3] mul_mono(1, P(i + (m - i > k ? k : m - i)), V(x[i + (m - i > k ? k : m - i):]))
+//@   hint[after:mul#3] assert(V(x[:i + (m - i > k ? k : m - i)]) <= V(x))
+//@   hint[after:mul#3] mul_mono(V(x[:i + (m - i > k ? k : m - i)]), V(x), V(y))
+//@   hint[after:mul#3] mul_eq(V(x[:i + (m - i > k ? k : m - i)]), V(x[:i]) + P(i)*V(x[i:i + (m - i > k ? k : m - i)]), V(y))
+//@   hint[after:mul#3] mul_eq(V(y), V(y[:k]) + P(k)*V(y[k:]), P(i)*V(x[i:i + (m - i > k ? k : m - i)]))
+//@   hint[after:mul#3] mul_eq(P(i + k), P(i)*P(k), V(x[i:i + (m - i > k ? k : m - i)])*V(y[k:]))
+//@   hint[after:mul#3] mul_eq(V(result), V(x[i:i + (m - i > k ? k : m - i)])*V(y[:k]), P(i))
+//@   hint[after:mul#3] assert(V(x[i:i + (m - i > k ? k : m - i)])*V(y[k:])*P(i + k) >= 0)
+//@   hint[after:mul#3] assert(V(z) + V(result)*P(i) <= V(x[:i + (m - i > k ? k : m - i)])*V(y))
+//@   hint[after:mul#4] mul_eq(V(result), V(x[i:i + (m - i > k ? k : m - i)])*V(y[k:]), P(i + k))
+//@   hint[after:mul#4] assert(V(z) + V(result)*P(i + k) == V(x[:i + (m - i > k ? k : m - i)])*V(y))
 
 //@ func (z dec) sqr(x dec) dec
 //@   requires[words]   wordsok(x) && natnorm(x) && small(x)
@@ -1199,7 +1280,7 @@ package decimal
 // Schoolbook multiplication: the building block below the Karatsuba threshold (and of every
 // Karatsuba leaf).  z[0:m+n] = x*y for x of m and y of n words.
 //@ func decBasicMul(z, x, y dec)
-//@   requires[len]     len(z) >= len(x) + len(y) && len(x) <= 100000000 && len(y) <= 100000000
+//@   requires[len]     len(z) >= len(x) + len(y) && len(x) <= 1099511627775 && len(y) <= 1099511627775
 //@   requires[words]   wordsok(x) && wordsok(y)
 //@   requires[apart]   z.arr != x.arr && z.arr != y.arr
 //@   modifies mem(z[:len(x)+len(y)])
@@ -1226,7 +1307,7 @@ package decimal
 // decAddAt: z += x*B^i, for a sum that fits in z (what the Karatsuba composition relies on).
 //@ func decAddAt(z, x dec, i int)
 //@   nomerge
-//@   requires[len]     0 <= i && i + len(x) <= len(z) && len(z) <= 1000000000
+//@   requires[len]     0 <= i && i + len(x) <= len(z) && len(z) <= 2199023255552
 //@   requires[words]   wordsok(z) && wordsok(x)
 //@   requires[apart]   z.arr != x.arr
 //@   requires[fits]    V(z) + V(x)*P(i) < P(len(z))
